@@ -115,11 +115,21 @@ class VLoop(asyncio.AbstractEventLoop):
             if isinstance(lt, SymBool):
                 if self._truth(lt):
                     best = t
-                elif self._truth(t._when == best._when):
+                elif not self._same_instant(t._when, best._when) and self._truth(t._when == best._when):
                     raise core.PathAbort("tie: two timers at exactly the same symbolic instant")
             elif lt:
                 best = t
         return best
+
+    @staticmethod
+    def _same_instant(a, b):
+        """Structurally the same deadline (e.g. two timers both armed for t+300): an ordinary tie, resolved by
+        scheduling order exactly as for concrete deadlines — not a coincidence of independent instants."""
+        import z3
+        ea = a.e if isinstance(a, SymReal) else z3.RealVal(a)
+        eb = b.e if isinstance(b, SymReal) else z3.RealVal(b)
+        d = z3.simplify(ea - eb)
+        return z3.is_rational_value(d) and d.numerator_as_long() == 0
 
     def run(self, until=None):
         """Run until no work is left that is due at or before `until` (None: until idle)."""
